@@ -8,6 +8,8 @@
     /repo/lang/core_lang/src/syntax/types.rs (`is_codata`), terms/*.rs (`get_type`).
   Input: `Scc.Fun.CheckedProgram` (dump S1); output: `Scc.Core.Prog` (dump S2).
   Core imports only; executable; every function is structurally recursive.
+  State of /repo: including the fixes ce30c7b (capture guard in let.rs / case.rs) and 2d51e38
+  (goto.rs: type of the target covariable).
 
   Representation notes
   * `HashSet<String>` (used variables / used labels) is a `List String` with `insert` = cons if
@@ -323,6 +325,42 @@ def covarArg : Fun.Term → Option (String × Option Fun.Ty)
   | .var x ty (some .cns) => some (x, ty)
   | _ => none
 
+-- compile.rs: fn binders_occur_free (typed free variables of `cont`, compared by NAME)
+def bindersOccurFree (binders : List String) (cont : Core.Term) : Bool :=
+  (tfvTerm cont []).any fun b => binders.contains b.var.name
+
+/-- terms/let.rs, terms/case.rs (repaired): the guard at the start of `compile_with_cont`:
+```text
+if binders_occur_free(binders, cont) { return Cut { producer: self.compile(state, ty), ty, consumer: cont } }
+… core …
+```
+`self.compile` is the default `μa.⟦self⟧_a` with a fresh `a`, which re-enters `compile_with_cont`
+(and the guard) with the consumer `a`.  The re-entry can only be guarded again if the fresh `a` is
+itself one of `binders`, which needs a binder that is not in the used-names set; every re-entry
+uses a new fresh name, so the nesting depth is at most `|binders| + 1`.  The model unrolls this
+recursion `fuel` times (`guarded` uses `|binders| + 2`); the `0` case is unreachable. -/
+def guardedLvl (binders : List String) (ty : Option Fun.Ty) (site : String) (core : CwcFn) :
+    Nat → CwcFn
+  | 0 => fun _ _ => .error (site ++ ": guard recursion exhausted (unreachable)")
+  | n + 1 => fun cont st =>
+    if bindersOccurFree binders cont then
+      match ty with
+      | none => .error (noTy site)
+      | some t =>
+        let cty := compileTy t
+        match defaultCompile (guardedLvl binders ty site core n) cty st with
+        | .error e => .error e
+        | .ok (p, st1) => .ok (.cut cty p cont, st1)
+    else core cont st
+
+def guarded (binders : List String) (ty : Option Fun.Ty) (site : String) (core : CwcFn) : CwcFn :=
+  guardedLvl binders ty site core (binders.length + 2)
+
+/-- terms/case.rs: all `context_names` of the clauses (`flat_map`) -/
+def clausesNames : Fun.Clauses → List String
+  | .nil => []
+  | .cons _ _ names _ _ rest => names ++ clausesNames rest
+
 def clausesLen : Fun.Clauses → Nat
   | .nil => 0
   | .cons _ _ _ _ _ r => clausesLen r + 1
@@ -402,8 +440,8 @@ mutual
           | .ok (next, st2) => .ok (.print nl arg next, st2)
       (cwc, defaultCompile cwc)
     -- terms/let.rs
-    | .letIn x varTy bound body _ =>
-      let cwc : CwcFn := fun cont st =>
+    | .letIn x varTy bound body lty =>
+      let core : CwcFn := fun cont st =>
         let ty := compileTy varTy
         match (compileBoth body).1 cont st with
         | .error e => .error e
@@ -415,6 +453,7 @@ mutual
             | .ok (p, st2) => .ok (.cut ty p newCont, st2)
           else
             (compileBoth bound).1 newCont st1
+      let cwc : CwcFn := guarded [x] lty "let.rs: Let::compile_with_cont" core
       (cwc, defaultCompile cwc)
     -- terms/call.rs
     | .call name args retTy =>
@@ -457,8 +496,8 @@ mutual
             (compileBoth scrutinee).1 newCont st1
       (cwc, defaultCompile cwc)
     -- terms/case.rs
-    | .case scrutinee _ clauses _ =>
-      let cwc : CwcFn := fun cont st =>
+    | .case scrutinee _ clauses cty =>
+      let core : CwcFn := fun cont st =>
         let r := if clausesLen clauses ≤ 1 || isLeaf cont then (cont, st) else share cont st
         match compileClauses clauses r.1 r.2 with
         | .error e => .error e
@@ -468,6 +507,8 @@ mutual
           | some t =>
             let newCont : Core.Term := .xcase .cns (compileTy t) cs
             (compileBoth scrutinee).1 newCont st1
+      let cwc : CwcFn :=
+        guarded (clausesNames clauses) cty "case.rs: Case::compile_with_cont (guard)" core
       (cwc, defaultCompile cwc)
     -- terms/new.rs
     | .new clauses ty =>
@@ -487,10 +528,10 @@ mutual
           | .error e => .error e
           | .ok (p, st1) => .ok (.cut cty p cont, st1),
        comp)
-    -- terms/goto.rs
-    | .goto target t ty =>
+    -- terms/goto.rs (the target covariable has the type of the ARGUMENT)
+    | .goto target t _ =>
       let cwc : CwcFn := fun _ st =>
-        match ty with
+        match getType t with
         | none => .error (noTy "goto.rs: Goto::compile_with_cont")
         | some gty => (compileBoth t).1 (.var .cns ⟨target, 0⟩ (compileTy gty)) st
       (cwc, defaultCompile cwc)
